@@ -93,7 +93,7 @@ Fixpoint l_has_arg (e : lexp) : bool :=
   | LSingle z => z_has_arg z
   | LNumbers n => s_has_arg n
   | LAppend l x => l_has_arg l || z_has_arg x
-  | LMap k l | LAccept k l | LTop k l | LSkip k l => s_has_arg k || l_has_arg l
+  | LMap k l | LAccept k l | LTop k l | LSkip k l | LGuard k l => s_has_arg k || l_has_arg l
   | LConcat a b => l_has_arg a || l_has_arg b
   | LReverse l | LForce l => l_has_arg l
   end
@@ -115,7 +115,7 @@ Fixpoint l_nofold (e : lexp) : bool :=
   | LSingle z => z_has_arg z && z_nofold z
   | LNumbers n => s_has_arg n
   | LAppend l x => l_has_arg e && l_nofold l && z_nofold x
-  | LMap k l | LAccept k l | LTop k l | LSkip k l => l_has_arg e && l_nofold l
+  | LMap k l | LAccept k l | LTop k l | LSkip k l | LGuard k l => l_has_arg e && l_nofold l
   | LConcat a b => l_has_arg e && l_nofold a && l_nofold b
   | LReverse l | LForce l => l_has_arg l && l_nofold l
   end
